@@ -422,7 +422,7 @@ def extra(tier, ctx):
     alphabet = b"0159aAfFgG+-_xX \t\n.eL"
     maxlen = 3 if tier == "quick" else 4
     n = 0
-    data = bytes(range(48, 48 + 64)) * 70
+    data = bytes(range(48, 48 + 64)) * 1024
     for L in range(0, maxlen + 1):
         for t in itertools.product(alphabet, repeat=L):
             f = bytes(t)
